@@ -36,12 +36,14 @@ def arm(draw, k, r0, apart=False):
         r = draw(RAD)
         if draw(st.integers(0, 5)) == 0:
             r = prev  # equal radii now and then
-        m = max(prev, r)
+        elif draw(st.integers(0, 11)) == 0:
+            r = 0.0  # a node of radius zero (SWC files have them): its sphere is empty, its frusta are cones
+        m = max(prev, r, 0.1)
         mode = draw(st.integers(0, 3))
         f = 1.0 if mode == 0 else 1.0 + draw(st.floats(min_value=0.0, max_value=0.5)) if mode in (1, 2) else \
             1.0 + draw(st.floats(min_value=0.0, max_value=3.0))
         if apart:  # neighbouring spheres exactly tangent or clear of each other
-            m = prev + r
+            m = max(prev + r, 0.1)
             f = 1.0 if mode == 0 else 1.0 + draw(st.floats(min_value=0.0, max_value=1.0))
         x += m * f
         xs.append(x)
@@ -111,6 +113,8 @@ def run_collinear(case, ctx):
                 overlap_unequal = True
     want = models.revolution_volume(prof, "max")
     lv = case["level"]
+    if any(r == 0 for r in R):
+        ctx.cls("collinear:zero-radius-node")
     ctx.cls("two-arm" if case["two"] else "chain", f"level:{lv}", "overlapping-neighbours" if n_overlap else "all-apart",
             "mc-term" if case["two"] and lv >= 5 else "analytic-only")
     ctx.nontrivial(n >= 3 and overlap_unequal)
@@ -141,6 +145,11 @@ def run_collinear(case, ctx):
 def levels12_strategy(draw, tier):
     max_n = 25 if tier == "quick" else 150
     t = draw(gen_tree.tree_case(min_n=1, max_n=max_n, regimes=["lattice", "float", "coincident"], extras=False, mag=100.0))
+    n = len(t["parents"])
+    if draw(st.integers(0, 3)) == 0:
+        # nodes of radius zero anywhere: tip, pass-through node, furcation, root
+        for _ in range(draw(st.integers(1, 3))):
+            t["r"][draw(st.integers(0, n - 1))] = 0.0
     return {"tree": t}
 
 
@@ -157,11 +166,14 @@ def run_levels12(case, ctx):
         if p >= 0:
             v2 += math.pi * seg[i] * (R[i] ** 2 + R[i] * R[p] + R[p] ** 2) / 3.0
     ctx.cls(*gen_tree.shape_classes(t))
+    ch = models.children(t["parents"])
+    if any(R[i] == 0 and ch[i] for i in range(len(R))):
+        ctx.cls("zero-radius-node-with-children")
     ctx.nontrivial(len(R) >= 4 and any(len(c) >= 2 for c in models.children(t["parents"])))
     g1 = float(ctx.lib("get_volume[accuracy=1]", get_volume, tree, accuracy=1))
     g2 = float(ctx.lib("get_volume[accuracy=2]", get_volume, tree, accuracy=2))
-    ctx.check(abs(g1 - v1) <= 1e-5 * v1, "level1/sum-of-node-spheres", lambda: f"got {g1!r}, expected {v1!r}")
-    ctx.check(abs(g2 - v2) <= 1e-5 * v2, "level2/spheres-plus-frusta", lambda: f"got {g2!r}, expected {v2!r}")
+    ctx.check(abs(g1 - v1) <= 1e-5 * v1 + 1e-12, "level1/sum-of-node-spheres", lambda: f"got {g1!r}, expected {v1!r}")
+    ctx.check(abs(g2 - v2) <= 1e-5 * v2 + 1e-12, "level2/spheres-plus-frusta", lambda: f"got {g2!r}, expected {v2!r}")
 
 
 SUBCHECKS = [
@@ -169,5 +181,5 @@ SUBCHECKS = [
         required={"chain": 200, "two-arm": 80, "overlapping-neighbours": 200, "all-apart": 20, "mc-term": 5,
                   "level:3": 30, "level:9": 10, "via-extract_feature": 20}),
     Sub("levels12", levels12_strategy, run_levels12, quick=800, thorough=10000, shards_quick=2,
-        required={"furcations>=2": 100, "single-node": 5}),
+        required={"furcations>=2": 100, "single-node": 5, "zero-radius-node-with-children": 40}),
 ]
